@@ -591,6 +591,9 @@ func Eq(a, b *Term) *Term {
 	if both(a, b) {
 		return Bool(a.val == b.val)
 	}
+	if (a.op == OpZExt && b.op == OpZExt || a.op == OpSExt && b.op == OpSExt) && a.args[0].w == b.args[0].w {
+		return Eq(a.args[0], b.args[0])
+	}
 	// base + constant offset on both sides
 	if ba, oa := splitBase(a); true {
 		bb, ob := splitBase(b)
